@@ -80,7 +80,7 @@ func genCred(r *sim.Rand, scram, noBlankEdges bool) string {
 }
 
 func (p *c14) Gen(seed uint64, i int, tier string) (any, bool) {
-	n := 12000
+	n := 80000
 	if tier == "thorough" {
 		n = 600000
 	}
